@@ -316,11 +316,15 @@ pub fn bin_path(label: &str) -> String {
     }
 }
 
+/// Compiler errors (per binary = universe label) of the last `prepare`.
+pub static LAST_ERRORS: std::sync::Mutex<std::collections::BTreeMap<String, Vec<String>>> = std::sync::Mutex::new(std::collections::BTreeMap::new());
+
 /// Generate + build the given universes; returns their labels with descriptions.
 pub fn prepare(opts: &Opts, labels: &[String]) -> Result<Vec<(String, Universe)>, String> {
     let us: Vec<(String, Universe)> = labels.iter().map(|l| (l.clone(), universe_by_label(l, opts))).collect();
     let dir = write_crate(&us, variant());
     let b = cargo_build(&dir, false);
+    *LAST_ERRORS.lock().unwrap() = b.errors.clone();
     if !b.ok {
         let mut msg = String::from("build of generated subject programs failed\n");
         for (t, es) in &b.errors {
